@@ -755,7 +755,51 @@ fn budgets_ok(len: usize, o: &mut Outcome, recipes: &[&'static str], what: &str)
   true
 }
 
-fn inject_monitored(cn: &mut CaseNode, dg: &[u8], o: &mut Outcome, recipes: &[&'static str], idx: usize) -> bool {
+/// Known finding "DATAFRAG data_size is allocated on the first fragment": while its
+/// generator exclusion is on, no datagram (structured, mutated or raw) may carry
+/// a DATAFRAG with data_size above 64 KiB. Rewrites the field in place.
+fn sanitize_datafrag_sizes(dg: &mut [u8]) -> u32 {
+  if !hooks::excluded("c06.datafrag-data-size") {
+    return 0;
+  }
+  let mut changed = 0;
+  let mut pos = 20;
+  while pos + 4 <= dg.len() {
+    let kind = dg[pos];
+    let le = dg[pos + 1] & 1 == 1;
+    let l = if le {
+      u16::from_le_bytes([dg[pos + 2], dg[pos + 3]])
+    } else {
+      u16::from_be_bytes([dg[pos + 2], dg[pos + 3]])
+    } as usize;
+    let body_len = if l == 0 && kind != wire::PAD && kind != wire::INFO_TS {
+      dg.len() - pos - 4
+    } else {
+      l
+    };
+    if kind == wire::DATA_FRAG && pos + 4 + 32 <= dg.len() {
+      // data_size is at body offset 28
+      let o = pos + 4 + 28;
+      let v = if le {
+        u32::from_le_bytes([dg[o], dg[o + 1], dg[o + 2], dg[o + 3]])
+      } else {
+        u32::from_be_bytes([dg[o], dg[o + 1], dg[o + 2], dg[o + 3]])
+      };
+      if v > 65536 {
+        let nv: u32 = 65536;
+        dg[o..o + 4].copy_from_slice(&if le { nv.to_le_bytes() } else { nv.to_be_bytes() });
+        changed += 1;
+      }
+    }
+    pos += 4 + body_len;
+  }
+  changed
+}
+
+fn inject_monitored(cn: &mut CaseNode, dg_in: &[u8], o: &mut Outcome, recipes: &[&'static str], idx: usize) -> bool {
+  let mut dg_owned = dg_in.to_vec();
+  o.excluded += sanitize_datafrag_sizes(&mut dg_owned);
+  let dg: &[u8] = &dg_owned;
   let len = dg.len();
   let tick_budget = 2_000 + 64 * len as u64;
   let base = hooks::alloc_stats().map(|s| s.live).unwrap_or(0);
@@ -784,9 +828,12 @@ fn inject_monitored(cn: &mut CaseNode, dg: &[u8], o: &mut Outcome, recipes: &[&'
     let peak_over = st.peak.saturating_sub(base);
     let budget = (1usize << 20) + 256 * len;
     if peak_over > budget {
+      // key: the submessage kind that allocates by a header field, if present
+      let has_datafrag = wire::walk(dg).map_or(false, |(_, subs)| subs.iter().any(|x| x.kind == wire::DATA_FRAG));
+      let key = if has_datafrag { "datafrag".to_string() } else { recipes.join("+") };
       o.violate(
         "c06.alloc-budget",
-        &recipes.join("+"),
+        &key,
         format!("datagram {idx} ({len} bytes, {}): peak allocation {peak_over} bytes above the level before it (budget {budget}); bytes={}", recipes.join("+"), hex(&dg[..len.min(160)])),
       );
       return false;
